@@ -23,7 +23,7 @@ Case = Case
 IMPL_TIMEOUT = 900
 REPO = os.environ.get("VERIF_REPO", "/repo")
 
-BORROW = [(c04, ("non-ascii", "junk", "malformed", "oversize", "hostile", "bad")), (c06, ("trunc", "malformed", "garbage", "bad", "deviation")),
+BORROW = [(c04, ("non-ascii", "junk", "malformed", "oversize", "hostile", "bad", "shape")), (c06, ("trunc", "malformed", "garbage", "bad", "deviation")),
           (c07, ("malformed", "bad", "trunc", "garbage", "invalid")), (c15, ("malformed", "bad", "trunc", "garbage", "partial", "oversize")),
           (c16, ("malformed", "bad", "trunc", "req-", "version", "garbage", "cmd")), (c17, ("malformed", "non-ascii", "bad", "garbage", "64k"))]
 
